@@ -129,14 +129,14 @@ def all_ranks(spec):
 
 
 @st.composite
-def tensor_data(draw, shape, max_elems=40):
+def tensor_data(draw, shape, max_elems=40, classes=None):
     """{coords: value} with positive values; density class drawn"""
     if not shape:
         return {(): draw(st.integers(1, 9))}
     vol = 1
     for n in shape:
         vol *= n
-    cls = draw(st.sampled_from(["empty", "sparse", "half", "half", "dense", "dense", "dense", "dense"]))
+    cls = draw(st.sampled_from(classes or ["empty", "sparse", "half", "half", "dense", "dense", "dense", "dense"]))
     if cls == "empty":
         return {}
     if cls == "dense" and vol <= max_elems:
@@ -402,8 +402,8 @@ def case_flat(draw, max_extent=6, **kw):
     groups = []
     others = [r for r in vs if r not in flat]
     for r in others:
-        if r.lower() in input_carried_vars(expr) and draw(st.integers(0, 3)) == 0:
-            if draw(st.booleans()):
+        if r.lower() in input_carried_vars(expr) and draw(st.integers(0, 2)) == 0:
+            if draw(st.integers(0, 2)) == 0:
                 dirs, sizes = draw(shape_stack(r, rt["extents"][r], 2))
                 rt["sizes"].update(sizes)
             else:
@@ -446,6 +446,7 @@ def case_affine(draw, max_extent=6, coeffs=(1, 1, 2, 2, 3, 4), allow_partition=T
     e = lambda: draw(st.integers(1, max_extent))  # noqa: E731
     co = lambda: draw(st.sampled_from(coeffs))     # noqa: E731
     parts = []
+    extra_followers = []
     affine = []      # (tensor rank W, [(coeff, VAR)...]) the equations
     if tmpl in ("conv1d", "sum3"):
         a, b = co(), co()
@@ -475,10 +476,23 @@ def case_affine(draw, max_extent=6, coeffs=(1, 1, 2, 2, 3, 4), allow_partition=T
             f_idx.append(_ie((1, "c"))); f_decl.append("C")
         decl = [["F", f_decl], ["I", i_decl], ["O", o_decl]]
         facs = [{"t": "I", "idx": i_idx}, {"t": "F", "idx": f_idx}]
+        extra_followers = []
         if draw(st.integers(0, 1 if allow_reverse else 3)) == 0:
             # a second tensor accessed with the same affine index (two projected inputs at one loop)
             decl.insert(1, ["G", list(i_decl)])
             facs.insert(draw(st.integers(0, 1)), {"t": "G", "idx": copy.deepcopy(i_idx)})
+        if tmpl == "conv1d" and draw(st.integers(0, 2)) == 0:
+            # an operand indexed by the output rank itself (sparse: it can have empty partitions)
+            decl.append(["H", ["Q"]])
+            facs.insert(draw(st.integers(0, len(facs))), {"t": "H", "idx": [_ie((1, "q"))]})
+        if tmpl == "conv1d" and draw(st.integers(0, 3)) == 0:
+            # a second affine tensor over its own rank X with its own coefficients (a different halo when X follows Q)
+            a2, b2 = draw(st.sampled_from([1, 1, 2])), draw(st.sampled_from([1, 2, 2]))
+            ext["X"] = a2 * (ext["Q"] - 1) + b2 * (ext["S"] - 1) + 1
+            decl.append(["K", ["X"]])
+            facs.insert(draw(st.integers(0, len(facs))), {"t": "K", "idx": [_ie((a2, "q"), (b2, "s"))]})
+            affine.append(("X", [(a2, "Q"), (b2, "S")]))
+            extra_followers.append("X")
         if draw(st.booleans()):
             facs.reverse()
         expr = {"out": ["O", o_idx], "terms": [{"take": None, "factors": facs}]}
@@ -571,6 +585,8 @@ def case_affine(draw, max_extent=6, coeffs=(1, 1, 2, 2, 3, 4), allow_partition=T
             dirs.append("uniform_occupancy(%s.%s)" % (lead, draw(size_token("sz_occ", 1, 4, sizes))))
             part_levels += 1
         parts = [[out_affine_rank, dirs], [follower, ["follow(%s)" % out_affine_rank]]]
+        for xf in (extra_followers if tmpl == "conv1d" else []):
+            parts.append([xf, ["follow(%s)" % out_affine_rank]])
         reverse = allow_reverse and draw(st.integers(0, 2)) == 0
         if reverse:
             # the tensor's own rank is partitioned and the output index rank follows it (static checks only:
@@ -586,7 +602,10 @@ def case_affine(draw, max_extent=6, coeffs=(1, 1, 2, 2, 3, 4), allow_partition=T
         loop = list(vs)
         for trank, terms in affine:
             repl = [v for _, v in terms if v not in out_vars]
-            if tmpl == "twotap":
+            repl = [v for v in repl if v in loop]
+            if tmpl == "twotap" or extra_followers:
+                # (with two different affine tensors sharing a variable, looping over one tensor's own rank would need the
+                #  composition of two index equations, which the compiler does not attempt)
                 repl = []    # replacing one of two taps of the same tensor is legal only for some positions: not generated
             if repl and draw(st.booleans()):
                 loop[loop.index(draw(st.sampled_from(repl)))] = trank
@@ -610,10 +629,14 @@ def case_affine(draw, max_extent=6, coeffs=(1, 1, 2, 2, 3, 4), allow_partition=T
             spec["loop_order"] = {out: [x for g in groups for x in g]}
     rt = draw(runtime(spec, extents=ext))
     rt["sizes"].update(sizes)
+    if any(d[0] == "H" for d in decl) and draw(st.booleans()):
+        from . import execute as X_
+        hd = draw(tensor_data([ext["Q"]], classes=["sparse", "sparse", "half"]))
+        rt["inputs"]["H"] = X_.inputs_to_json({"H": hd})["H"]
     case = {"spec": spec, "template": tmpl, "part_levels": part_levels,
             "affine": [[w, [[c, v] for c, v in terms]] for w, terms in affine],
             "part_rank": out_affine_rank if part_levels else None, "follower": follower if part_levels else None,
-            "reverse_follow": reverse}
+            "reverse_follow": reverse, "followers": ([follower] + list(extra_followers)) if part_levels else []}
     case.update(rt)
     return case
 
@@ -728,6 +751,23 @@ def case_cascade(draw, max_extent=5, with_spacetime=False, **kw):
         parts = []
         carried = [v.upper() for v in input_carried_vars(expr)]
         single = len(expr["terms"]) == 1
+        wide = [f for f in expr["terms"][0]["factors"] if "t" in f and len(f["idx"]) >= 2] if single else []
+        if wide and draw(st.integers(0, 3)) == 0:
+            # flatten two ranks of one tensor of this Einsum (the output is flattened too when it carries both)
+            T = draw(st.sampled_from(wide))
+            pair = list(draw(st.permutations([ie[0][1].upper() for ie in T["idx"]])))[:2]
+            flat = "".join(pair)
+            parts.append(["(" + ", ".join(pair) + ")", ["flatten()"]])
+            lv = [flat]
+            if draw(st.booleans()):
+                hs = [f["t"] for f in expr["terms"][0]["factors"] if "t" in f and
+                      all(any(r.lower() in S.iexpr_vars(ie) for ie in f["idx"]) for r in pair)]
+                parts.append([flat, ["uniform_occupancy(%s.%d)" % (draw(st.sampled_from(hs)), draw(st.integers(1, 3)))]])
+                lv = levels_of(flat, 1)
+            spec["partitioning"][out] = parts
+            rest = [[r] for r in vs if r not in pair]
+            spec["loop_order"][out] = draw(interleave(list(draw(st.permutations(rest + [lv])))))
+            continue
         for r in vs:
             if r in carried and draw(st.integers(0, 3)) == 0:
                 if single and draw(st.booleans()):
@@ -791,6 +831,10 @@ def corpus_case(draw, max_extent=4, spacetime_ratio=2, static_only=True,
         c = draw(case_occ(max_extent=max_extent))
     elif fam == "flat":
         c = draw(case_flat(max_extent=max_extent))
+    elif fam == "flat2":
+        c = draw(case_flat2(max_extent=max_extent))
+    elif fam == "flatd":
+        c = draw(case_flat_discord(max_extent=max_extent))
     elif fam == "affine":
         c = draw(case_affine(max_extent=max_extent, allow_reverse=static_only))
     else:
@@ -814,22 +858,28 @@ def case_flat2(draw, max_extent=4):
     """Z[subset] = A[4 ranks in drawn order] (* B[one rank])?; two pairs of A's ranks are flattened, each raw, below a
     shape split or below an occupancy split (dynamic flattening)"""
     rs = list(draw(st.permutations(["K", "M", "J", "N"])))
-    decl_a = list(draw(st.permutations(rs)))
+    aligned = draw(st.booleans())
+    # aligned: the declared order already has both groups adjacent and in order (the flattening swizzle is a no-op)
+    decl_a = list(rs) if aligned else list(draw(st.permutations(rs)))
     pairs = [[rs[0], rs[1]], [rs[2], rs[3]]]
-    outv = draw(subset(rs))
-    outv = list(draw(st.permutations(outv))) if outv else []
+    outv = list(rs) if draw(st.integers(0, 2)) == 0 else draw(subset(rs))
+    outv = list(draw(st.permutations(outv))) if outv and not aligned else list(outv)
     facs = [{"t": "A", "idx": [plain(r.lower()) for r in decl_a]}]
     decl = [["A", decl_a], ["Z", outv]]
-    if draw(st.booleans()):
+    k = draw(st.integers(0, 2))
+    if k == 1:
         r = draw(st.sampled_from(rs))
         decl.insert(1, ["B", [r]])
         facs.append({"t": "B", "idx": [plain(r.lower())]})
+    elif k == 2:
+        decl.insert(1, ["B", list(decl_a)])
+        facs.append({"t": "B", "idx": [plain(r.lower()) for r in decl_a]})
     spec = {"decl": decl, "exprs": [{"out": ["Z", [plain(r.lower()) for r in outv]], "terms": [{"take": None, "factors": facs}]}],
             "rank_order": {}, "loop_order": {}, "partitioning": {}, "spacetime": {}, "extra": {}}
     rt = draw(runtime(spec, max_extent=max_extent))
     parts, chains = [], []
     for pair in pairs:
-        pair = list(draw(st.permutations(pair)))
+        pair = list(pair) if aligned else list(draw(st.permutations(pair)))
         names, pre = [], []
         mode = draw(st.sampled_from(["raw", "raw", "shape", "occ"]))
         which = draw(st.integers(0, 1))
@@ -848,5 +898,81 @@ def case_flat2(draw, max_extent=4):
     spec["partitioning"] = {"Z": parts}
     spec["loop_order"] = {"Z": draw(interleave(chains))}
     case = {"spec": spec, "family": "flat2", "lo_mode": "ordered"}
+    case.update(rt)
+    return case
+
+
+
+@st.composite
+def case_cascade_affine(draw, max_extent=4):
+    """an affine Einsum (conv / subsample) followed by 1-2 element-wise Einsums that reuse its index names, with
+    partitioning of the shared rank in the later Einsums (per-Einsum coordinate math must not leak)"""
+    a, b = draw(st.sampled_from([1, 1, 2])), draw(st.sampled_from([1, 1, 2]))
+    conv = draw(st.booleans())
+    ext = {"Q": draw(st.integers(1, max_extent))}
+    if conv:
+        ext["S"] = draw(st.integers(1, 3))
+        ext["W"] = a * (ext["Q"] - 1) + b * (ext["S"] - 1) + 1
+        decl = [["F", ["S"]], ["I", ["W"]], ["T0", ["Q"]]]
+        e0 = {"out": ["T0", [plain("q")]], "terms": [{"take": None, "factors": [
+            {"t": "I", "idx": [_ie((a, "q"), (b, "s"))]}, {"t": "F", "idx": [plain("s")]}]}]}
+    else:
+        ext["W"] = a * (ext["Q"] - 1) + 1
+        decl = [["I", ["W"]], ["T0", ["Q"]]]
+        e0 = {"out": ["T0", [plain("q")]], "terms": [{"take": None, "factors": [{"t": "I", "idx": [_ie((a, "q"))]}]}]}
+    exprs = [e0]
+    n = draw(st.integers(1, 2))
+    prev = "T0"
+    spec = {"decl": decl, "exprs": exprs, "rank_order": {}, "loop_order": {}, "partitioning": {}, "spacetime": {}, "extra": {}}
+    sizes = {}
+    for i in range(n):
+        out = "Z" if i == n - 1 else "T%d" % (i + 1)
+        other = "G%d" % i
+        decl.append([other, ["Q"]])
+        decl.append([out, ["Q"]])
+        exprs.append({"out": [out, [plain("q")]], "terms": [{"take": None, "factors": [
+            {"t": prev, "idx": [plain("q")]}, {"t": other, "idx": [plain("q")]}]}]})
+        if draw(st.integers(0, 3)) > 0:
+            dirs, sz = draw(shape_stack("Q", ext["Q"], 2))
+            sizes.update(sz)
+            spec["partitioning"][out] = [["Q", dirs]]
+        prev = out
+    rt = draw(runtime(spec, extents=ext))
+    rt["sizes"].update(sizes)
+    case = {"spec": spec, "family": "cascade-affine"}
+    case.update(rt)
+    return case
+
+
+
+@st.composite
+def case_flat_discord(draw, max_extent=4):
+    """
+    A[m, n] is flattened over (M, N); T[m, k] lacks N and is reached by getPayload; K is occupancy-partitioned (leader T or B)
+    and an unrelated rank P may be looped in between: Z[subset] = A[m, n] * T[m, k] * B[p, k]
+    """
+    pair = list(draw(st.permutations(["M", "N"])))
+    a_decl = list(draw(st.permutations(["M", "N"])))
+    t_decl = list(draw(st.permutations(["M", "K"])))
+    with_p = draw(st.integers(0, 3)) > 0
+    b_decl = list(draw(st.permutations(["P", "K"]))) if with_p else ["K"]
+    allr = ["M", "N", "K"] + (["P"] if with_p else [])
+    outv = list(draw(st.permutations(draw(subset(allr)))))
+    decl = [["A", a_decl], ["T", t_decl], ["B", b_decl], ["Z", outv]]
+    facs = [{"t": n, "idx": [plain(r.lower()) for r in rs]} for n, rs in decl[:3]]
+    facs = list(draw(st.permutations(facs)))
+    spec = {"decl": list(draw(st.permutations(decl))),
+            "exprs": [{"out": ["Z", [plain(r.lower()) for r in outv]], "terms": [{"take": None, "factors": facs}]}],
+            "rank_order": {}, "loop_order": {}, "partitioning": {}, "spacetime": {}, "extra": {}}
+    rt = draw(runtime(spec, max_extent=max_extent))
+    nocc = draw(st.sampled_from([1, 1, 2]))
+    dirs = ["uniform_occupancy(%s.%d)" % (draw(st.sampled_from(["T", "B"])), draw(st.integers(1, 3))) for _ in range(nocc)]
+    if draw(st.integers(0, 3)) == 0:
+        dirs.insert(0, "uniform_shape(%d)" % draw(st.integers(1, 3)))
+    flat = "".join(pair)
+    spec["partitioning"] = {"Z": [["(" + ", ".join(pair) + ")", ["flatten()"]], ["K", dirs]]}
+    groups = [[flat], levels_of("K", len(dirs))] + ([["P"]] if with_p else [])
+    spec["loop_order"] = {"Z": draw(interleave(groups))}
+    case = {"spec": spec, "family": "flatd", "lo_mode": "ordered"}
     case.update(rt)
     return case
